@@ -40,6 +40,8 @@ type Handler struct {
 
 	watchingCh chan struct{}
 	poke       chan chan bool
+	holdCh     chan struct{} // set before the Watch step: the handler's stream is not read until it is closed
+	starved    bool          // an event the store owed this handler never arrived
 
 	mu       sync.Mutex
 	watching bool
@@ -392,8 +394,16 @@ func (h *Handler) watch(ctx context.Context, real txstore.Store, ch chan<- confi
 	h.mu.Lock()
 	f.onlyKey = h.txID
 	h.mu.Unlock()
+	hold := h.holdCh
 	go func() {
 		defer h.w.dropForwarder(f)
+		// a consumer that is slow to take its first event: the store has the watch, nobody reads it yet
+		if hold != nil {
+			select {
+			case <-hold:
+			case <-h.done:
+			}
+		}
 		for {
 			select {
 			case ev, ok := <-mid:
